@@ -70,10 +70,22 @@ def menu():
     return m
 
 
+def menu_inuse():
+    """a sub-universe searched one level deeper, on a router that is IN USE: every edit is followed by lookups"""
+    rs = ['/a/b', '/a/{x}', '/a/b/c']
+    hs = ['/a', '/a/b', '/a/{y}']
+    return ([('add', r) for r in rs] + [('rm', r) for r in rs] + [('rmp', '/a/b*'), ('rmp', '/a*')] + [('hook', h) for h in hs] +
+            [('unhook', h) for h in hs] + [('addn', '/a/b', 'n1'), ('rmn', 'n1')])
+
+
+INUSE = [False]
+
+
 def shards(tier, seed):
     depth = 3 if tier == 'quick' else 5
     m = menu()
     out = [('bfs', i, depth) for i in range(len(m))]
+    out += [('inuse', i, 4 if tier == 'quick' else 6) for i in range(len(menu_inuse()))]
     out.append(('extra', seed % 3, 3))
     return out
 
@@ -307,6 +319,13 @@ def build(om, hist, menu_rules=None):
     outcomes = []
     for op in hist:
         outcomes.append(apply_real(app, op, log))
+        if INUSE[0]:
+            # the router serves lookups between the edits
+            for path in PROBES:
+                try:
+                    app.router.resolve(path, ['GET'])
+                except Exception:   # noqa  (judged by the probes of the state, not here)
+                    pass
     return app, log, outcomes
 
 
@@ -459,6 +478,14 @@ def judge_state(om, hist, built=None, rules=None, hooks=None):
 
 
 def work(spec):
+    INUSE[0] = spec[0] == 'inuse'
+    try:
+        return _work(spec)
+    finally:
+        INUSE[0] = False
+
+
+def _work(spec):
     kind, a, depth = spec
     res = core.new_result()
     om = sut.load()
@@ -474,6 +501,9 @@ def work(spec):
         hooks[extra_rule] = extra_ast
         first = [('add', extra_rule), ('hook', extra_rule), ('rm', extra_rule), ('unhook', extra_rule)]
         m = m + first
+    elif kind == 'inuse':
+        m = menu_inuse()
+        first = [m[a]]
     else:
         first = [m[a]]
 
@@ -496,7 +526,7 @@ def work(spec):
             c['model_vs_fresh_disagreements'] += 1
         res['outcomes'].add('state ok' if not probs else 'state ' + probs[0][0])
         for cls, text in probs[:2]:
-            core.add_violation(res, {'kind': 'state', 'hist': [list(o) for o in hist], 'extra': a if kind == 'extra' else None},
+            core.add_violation(res, {'kind': 'state', 'hist': [list(o) for o in hist], 'extra': a if kind == 'extra' else None, 'inuse': INUSE[0]},
                                f'after {list(hist)!r}: {text}', sig=cls)
         return not probs
 
@@ -508,13 +538,13 @@ def work(spec):
             c['rejected_ops'] += 1
             side_effects = op[0] == 'addn'          # name conflict keeps route + method (reference decision)
             if out is None:
-                core.add_violation(res, {'kind': 'transition', 'hist': [list(o) for o in hist + (op,)], 'extra': a if kind == 'extra' else None},
+                core.add_violation(res, {'kind': 'transition', 'hist': [list(o) for o in hist + (op,)], 'extra': a if kind == 'extra' else None, 'inuse': INUSE[0]},
                                    f'after {list(hist)!r} the operation {op!r} must be rejected, it was accepted', sig='accepted-bad-op')
             elif ka != kb and not side_effects and fingerprint(app, rules) != fingerprint(build(om, hist)[0], rules):
-                core.add_violation(res, {'kind': 'transition', 'hist': [list(o) for o in hist + (op,)], 'extra': a if kind == 'extra' else None},
+                core.add_violation(res, {'kind': 'transition', 'hist': [list(o) for o in hist + (op,)], 'extra': a if kind == 'extra' else None, 'inuse': INUSE[0]},
                                    f'after {list(hist)!r} the rejected operation {op!r} ({out}) changed the router', sig='reject-not-atomic')
         elif exp == 'accept' and out is not None:
-            core.add_violation(res, {'kind': 'transition', 'hist': [list(o) for o in hist + (op,)], 'extra': a if kind == 'extra' else None},
+            core.add_violation(res, {'kind': 'transition', 'hist': [list(o) for o in hist + (op,)], 'extra': a if kind == 'extra' else None, 'inuse': INUSE[0]},
                                f'after {list(hist)!r} the operation {op!r} raised {out}', sig='spurious-reject:' + out)
 
     def build_k(h):
@@ -549,6 +579,17 @@ def _extra(case):
 
 
 def replay(case):
+    INUSE[0] = bool(case.get('inuse'))
+    try:
+        r = _replay(case)
+    finally:
+        INUSE[0] = False
+    if r and case.get('inuse'):
+        r = 'router in use (all probe paths looked up after every operation): ' + r
+    return r
+
+
+def _replay(case):
     om = sut.load()
     hist = tuple(tuple(o) for o in case['hist'])
     rules, hooks = _extra(case)
